@@ -149,8 +149,25 @@ func c07NormalizeFunc(fd *ast.FuncDecl) []string {
 	return order
 }
 
+// cacheWriterSites: every place outside tests that writes the region cache - calls of PutRegion, CheckAndPutRegion,
+// CheckAndPutLoadedRegion, SetRegion, RemoveRegion and DropCacheRegion under server/ and pkg/.  The drivers exercise exactly these
+// entry points; a new admin / recovery / feature path into the cache shows up as a new site.  Shared by C06 and C07.
+func cacheWriterSites(o *out, repo string) error {
+	for _, fn := range []string{"PutRegion", "CheckAndPutRegion", "CheckAndPutLoadedRegion", "SetRegion", "RemoveRegion", "DropCacheRegion"} {
+		sites, err := goast.CallSites(repo, []string{"server", "pkg"}, fn, nil)
+		if err != nil {
+			return err
+		}
+		o.strList("cache_writer_sites_"+fn, sites, "every call of X."+fn+"(...) outside tests: a way into the region cache")
+	}
+	return nil
+}
+
 // c07Skeletons is shared with C06 (which imports the C07 model).
 func c07Skeletons(o *out, repo string) error {
+	if err := cacheWriterSites(o, repo); err != nil {
+		return err
+	}
 	tr, err := goast.Load(repo, "server/core/region_tree.go")
 	if err != nil {
 		return err
